@@ -69,6 +69,10 @@ fn run_batch(a: &CheckArgs) -> Result<(Stats, f64), String> {
                 break;
             }
             let to = (from + CHUNK).min(max_runs);
+            let mut from = from;
+            // a worker may hand the tail of its chunk back (see Stats::next_from)
+            while from < to && !stop.load(Ordering::SeqCst) {
+            let mut resume_at = to;
             let mut cmd = std::process::Command::new(&exe);
             cmd.env("VERIF_TIER", &tier).arg("worker").arg(&prop).arg(seed.to_string()).arg(from.to_string()).arg(to.to_string()).arg(w.to_string());
             if let Some(f) = &fam {
@@ -121,6 +125,9 @@ fn run_batch(a: &CheckArgs) -> Result<(Stats, f64), String> {
                         Ok(s) => {
                             let mut m = merged.lock().unwrap();
                             let found = s.violations_total > 0;
+                            if let Some(n) = s.next_from {
+                                resume_at = n.max(from + 1);
+                            }
                             m.merge(s);
                             if found {
                                 stop.store(true, Ordering::SeqCst);
@@ -144,6 +151,8 @@ fn run_batch(a: &CheckArgs) -> Result<(Stats, f64), String> {
                     *harness_err.lock().unwrap() = Some(format!("cannot spawn worker: {e}"));
                     stop.store(true, Ordering::SeqCst);
                 }
+            }
+            from = resume_at;
             }
         }));
     }
@@ -277,10 +286,30 @@ fn find_vio(rec: &RunRecord, prop: &str, clause: &str) -> Option<crate::oracle::
         .find(|v| v.prop == prop && v.clause == clause && hunt.as_deref().map(|h| v.known == Some(h)).unwrap_or(true))
 }
 
+/// Threads parked for ever by runs that deadlock stay with the process.  Shrinking makes thousands
+/// of runs in this one process and many shrunk programs deadlock (a dropped Join, a dropped
+/// Open): past this budget the minimiser stops trying and reports what it has.
+static LEAKED: AtomicU64 = AtomicU64::new(0);
+const LEAK_BUDGET: u64 = 8000;
+
+fn note_leak(rec: &RunRecord) {
+    if matches!(rec.out.end, simrt::End::Deadlock | simrt::End::Leaked) {
+        LEAKED.fetch_add(rec.out.blocked.len() as u64, Ordering::Relaxed);
+    }
+}
+
+fn leak_budget_left() -> bool {
+    LEAKED.load(Ordering::Relaxed) < LEAK_BUDGET
+}
+
 fn try_prog(prog: &Program, base_seed: u64, prop: &str, clause: &str, tries: u64) -> Option<(u64, RunRecord)> {
     for k in 0..tries {
+        if !leak_budget_left() {
+            return None;
+        }
         let seed = if k == 0 { base_seed } else { crate::rng::run_seed(base_seed, k) };
         let rec = crate::exec::run_program(prog, seed, None, false);
+        note_leak(&rec);
         if find_vio(&rec, prop, clause).is_some() {
             return Some((seed, rec));
         }
@@ -350,10 +379,10 @@ pub fn minimise_and_persist(prop_checked: &str, v: &VioRec) -> String {
     }
     // 1. program shrinking
     let mut progress = true;
-    while progress && t0.elapsed().as_secs() < 40 {
+    while progress && t0.elapsed().as_secs() < 40 && leak_budget_left() {
         progress = false;
         for cand in shrink_candidates(&best) {
-            if t0.elapsed().as_secs() >= 40 {
+            if t0.elapsed().as_secs() >= 40 || !leak_budget_left() {
                 break;
             }
             if let Some((seed, rec)) = try_prog(&cand, best_seed, prop, clause, 24) {
@@ -368,9 +397,9 @@ pub fn minimise_and_persist(prop_checked: &str, v: &VioRec) -> String {
     // 2. schedule shrinking: replace regions of decisions by "stay on the current thread"
     let mut dec = best_rec.out.decisions.clone();
     let mut chunk = (dec.len() / 2).max(1);
-    while chunk >= 1 && t0.elapsed().as_secs() < 60 {
+    while chunk >= 1 && t0.elapsed().as_secs() < 60 && leak_budget_left() {
         let mut i = 0;
-        while i < dec.len() {
+        while i < dec.len() && leak_budget_left() {
             let end = (i + chunk).min(dec.len());
             if dec[i..end].iter().all(|d| *d == 0xFFFD) {
                 i = end;
@@ -381,6 +410,7 @@ pub fn minimise_and_persist(prop_checked: &str, v: &VioRec) -> String {
                 *d = 0xFFFD;
             }
             let rec = crate::exec::run_program(&best, best_seed, Some(cand.clone()), false);
+            note_leak(&rec);
             if find_vio(&rec, prop, clause).is_some() {
                 dec = cand;
                 best_rec = rec;
